@@ -353,10 +353,10 @@ def readAll (st : St) (r : Rd) : Option (St × Rd × Option Val × List Ev) :=
 /-! ## every history of operations, as a relation (used by the theorems)
 
 `Step st st'`: one exported operation (on arbitrary arguments) or pure bookkeeping (slots, readers,
-threshold: anything that leaves the heap of buffer structs alone) takes `st` to `st'`. The driver's
+threshold: anything that leaves the heap of buffer structs and the memories alone) takes `st` to `st'`. The driver's
 `exec` is built from exactly these functions. -/
 inductive Step : St → St → Prop
-  | frame {st st' : St} : st'.objs = st.objs → Step st st'
+  | frame {st st' : St} : st'.objs = st.objs → st'.mems = st.mems → Step st st'
   | newbuf (st : St) (n : Nat) (c : Bytes) (k : Nat) : Step st (newBuffer (poolGet st n c).1 (poolGet st n c).2.1 k).1
   | copy (st : St) (data : Bytes) : Step st (copyVal st data).1
   | ref {st st' : St} {v : Val} : refVal st v = some st' → Step st st'
